@@ -62,6 +62,9 @@ pub struct HistProp {
     pub quick_runs: u64,
     pub thorough_runs: u64,
     pub block: u64,
+    /// also execute a sample of the histories in several fresh processes with different hash
+    /// seeds and require identical observations (the property speaks about processes)
+    pub cross_process: bool,
 }
 
 fn env_u64(name: &str) -> Option<u64> {
@@ -316,6 +319,48 @@ pub fn minimise_and_report(p: &HistProp, seed: u64, tier: Tier, block_first: u64
         }
         prefix[k].ops = kept;
     }
+    // 4b. shrink the subject texts (drop whitespace-separated words while it still fails)
+    let mut shrunk = failing.clone();
+    shrunk.ops = ops.clone();
+    for si in 0..shrunk.subjects.len() {
+        let used = shrunk.ops.iter().any(|o| matches!(o, Op::Parse { subj } | Op::Compile { subj, .. } if *subj == si));
+        if !used {
+            continue;
+        }
+        let mut progress = true;
+        while progress {
+            progress = false;
+            let words: Vec<String> = shrunk.subjects[si].split(' ').map(String::from).collect();
+            if words.len() < 2 || words.len() > 400 {
+                break;
+            }
+            let mut len = (words.len() / 2).max(1);
+            'outer: loop {
+                let mut i = 0;
+                while i + len <= words.len() {
+                    if len < words.len() {
+                        let cand_text: String = words[..i].iter().chain(words[i + len..].iter()).cloned().collect::<Vec<_>>().join(" ");
+                        let mut cand = shrunk.clone();
+                        cand.subjects[si] = cand_text;
+                        let mut all = prefix.clone();
+                        all.push(cand.clone());
+                        if m.fails(&all)? {
+                            shrunk = cand;
+                            progress = true;
+                            break 'outer;
+                        }
+                    }
+                    i += len.max(1);
+                }
+                if len == 1 {
+                    break;
+                }
+                len = (len / 2).max(1);
+            }
+        }
+    }
+    let failing = shrunk.clone();
+    let ops = shrunk.ops.clone();
     // 5. drop subjects and paths no operation refers to (indices are remapped)
     let mut uncompacted = failing.clone();
     uncompacted.ops = ops;
@@ -385,6 +430,194 @@ fn compact(sc: &Scenario) -> Scenario {
     Scenario { subjects, paths, clock_start: sc.clock_start, hash_seed: sc.hash_seed, ops }
 }
 
+// ---------------------------------------------------------------------------------------------
+// cross-process comparison
+
+/// `fpsim outputs <file> <i>`: execute scenario `i` of a replay document in this (fresh) process
+/// and print what the caller observed, one JSON string per observation.
+pub fn outputs_cmd(path: &Path, i: usize) -> i32 {
+    let doc: Value = match std::fs::read_to_string(path).map_err(|e| e.to_string()).and_then(|t| serde_json::from_str(&t).map_err(|e| e.to_string())) {
+        Ok(v) => v,
+        Err(e) => {
+            eprintln!("harness error: {}: {e}", path.display());
+            return 2;
+        }
+    };
+    let sc = match doc["scenarios"].get(i).ok_or("no such scenario".to_string()).and_then(Scenario::from_json) {
+        Ok(s) => s,
+        Err(e) => {
+            eprintln!("harness error: {e}");
+            return 2;
+        }
+    };
+    let out = execute(&sc);
+    let list: Vec<Value> = out.obs.iter().map(|(i, o)| json!([i, o.stable()])).collect();
+    println!("{}", Value::Array(list));
+    0
+}
+
+fn child_outputs(path: &Path, i: usize) -> Result<Vec<(u64, String)>, String> {
+    let exe = std::env::current_exe().map_err(|e| e.to_string())?;
+    let out = std::process::Command::new(exe)
+        .args(["outputs", &path.display().to_string(), &i.to_string()])
+        .stdin(std::process::Stdio::null())
+        .output()
+        .map_err(|e| format!("spawn outputs child: {e}"))?;
+    if !out.status.success() {
+        return Err(format!("outputs child failed: {}", String::from_utf8_lossy(&out.stderr).trim()));
+    }
+    let v: Value = serde_json::from_slice(&out.stdout).map_err(|e| format!("outputs child: {e}"))?;
+    Ok(v.as_array()
+        .ok_or("outputs child: not an array")?
+        .iter()
+        .map(|x| (x[0].as_u64().unwrap_or(0), x[1].as_str().unwrap_or("").to_string()))
+        .collect())
+}
+
+pub const XPROC_CLASS: &str = "differs-across-processes";
+
+/// Execute every scenario of the document in its own fresh process and compare what the
+/// callers observed. The scenarios are variants of one history (same operations and clock
+/// scripts, possibly different hash seeds), so every observation must be identical.
+pub fn xproc_compare(path: &Path) -> Result<Option<Violation>, String> {
+    let doc: Value = serde_json::from_str(&std::fs::read_to_string(path).map_err(|e| e.to_string())?).map_err(|e| e.to_string())?;
+    let n = doc["scenarios"].as_array().map(|a| a.len()).unwrap_or(0);
+    let mut first: Option<Vec<(u64, String)>> = None;
+    for i in 0..n {
+        let outs = child_outputs(path, i)?;
+        match &first {
+            None => first = Some(outs),
+            Some(f) => {
+                if *f != outs {
+                    let k = f.iter().zip(outs.iter()).position(|(a, b)| a != b).unwrap_or(f.len().min(outs.len()));
+                    let (a, b) = (f.get(k).cloned().unwrap_or_default(), outs.get(k).cloned().unwrap_or_default());
+                    let at = a.1.bytes().zip(b.1.bytes()).position(|(x, y)| x != y).unwrap_or(a.1.len().min(b.1.len()));
+                    let cut = |t: &str| {
+                        let mut lo = at.saturating_sub(40).min(t.len());
+                        while !t.is_char_boundary(lo) {
+                            lo -= 1;
+                        }
+                        let mut hi = (at + 60).min(t.len());
+                        while !t.is_char_boundary(hi) {
+                            hi += 1;
+                        }
+                        t[lo..hi].to_string()
+                    };
+                    return Ok(Some(Violation {
+                        class: XPROC_CLASS.into(),
+                        detail: format!(
+                            "the same history observed different results in fresh process 0 and fresh process {i}: op {}: {:?} vs {:?}",
+                            a.0,
+                            cut(&a.1),
+                            cut(&b.1)
+                        ),
+                        ops: vec![a.0 as usize],
+                    }));
+                }
+            }
+        }
+    }
+    Ok(None)
+}
+
+fn xproc_doc(p: &HistProp, seed: u64, index: u64, variants: &[Scenario], detail: &str) -> Value {
+    json!({
+        "property": p.id, "seed": seed, "run_index": index, "class": XPROC_CLASS, "detail": detail,
+        "xproc": true,
+        "scenarios": variants.iter().map(|s| s.to_json()).collect::<Vec<_>>(),
+    })
+}
+
+fn variants_of(sc: &Scenario, same_seed: bool) -> Vec<Scenario> {
+    let mut v1 = sc.clone();
+    if !same_seed {
+        v1.hash_seed = mix(&[sc.hash_seed, 1]);
+    }
+    vec![sc.clone(), v1]
+}
+
+/// Cross-process pass over the first `n` run indices. Returns (histories compared, violation).
+fn cross_process_pass(p: &HistProp, seed: u64, tier: Tier, n: u64, same_seed_only: Option<u64>) -> Result<(u64, Option<(u64, PathBuf, String)>), String> {
+    let scratch = coord::scratch_dir();
+    let next = std::sync::atomic::AtomicU64::new(0);
+    let found: std::sync::Mutex<Vec<(u64, Violation)>> = std::sync::Mutex::new(vec![]);
+    let errors: std::sync::Mutex<Vec<String>> = std::sync::Mutex::new(vec![]);
+    let indices: Vec<u64> = match same_seed_only {
+        Some(i) => vec![i],
+        None => (0..n).collect(),
+    };
+    std::thread::scope(|s| {
+        for _ in 0..coord::workers() {
+            s.spawn(|| loop {
+                let k = next.fetch_add(1, std::sync::atomic::Ordering::SeqCst) as usize;
+                if k >= indices.len() || !found.lock().unwrap().is_empty() {
+                    break;
+                }
+                let index = indices[k];
+                let mut rng = Rng::new(coord::run_seed(seed, p.id, index));
+                let sc = (p.scenario)(&mut rng, tier);
+                // alternate: same hash seed in two processes / different hash seeds
+                let variants = variants_of(&sc, same_seed_only.is_some() || index % 3 == 0);
+                let file = scratch.join(format!("{}-xproc-{}-{}.json", p.id, std::process::id(), index));
+                let r = coord::write_json(&file, &xproc_doc(p, seed, index, &variants, "")).and_then(|_| xproc_compare(&file));
+                let _ = std::fs::remove_file(&file);
+                match r {
+                    Ok(Some(v)) => found.lock().unwrap().push((index, v)),
+                    Ok(None) => {}
+                    Err(e) => errors.lock().unwrap().push(e),
+                }
+            });
+        }
+    });
+    if let Some(e) = errors.into_inner().unwrap().into_iter().next() {
+        return Err(e);
+    }
+    let mut found = found.into_inner().unwrap();
+    found.sort_by_key(|(i, _)| *i);
+    let Some((index, v)) = found.into_iter().next() else { return Ok((indices.len() as u64, None)) };
+    // minimise: drop operations (from all variants alike) while the processes still disagree
+    let mut rng = Rng::new(coord::run_seed(seed, p.id, index));
+    let sc = (p.scenario)(&mut rng, tier);
+    let same = same_seed_only.is_some() || index % 3 == 0;
+    let cand_file = scratch.join(format!("{}-xproc-min-{}.json", p.id, std::process::id()));
+    let mut err = None;
+    let mut differs = |ops: &[Op]| -> bool {
+        let mut s = sc.clone();
+        s.ops = ops.to_vec();
+        let r = coord::write_json(&cand_file, &xproc_doc(p, seed, index, &variants_of(&s, same), "")).and_then(|_| xproc_compare(&cand_file));
+        match r {
+            Ok(v) => v.is_some(),
+            Err(e) => {
+                err = Some(e);
+                false
+            }
+        }
+    };
+    let mut ops = coord::ddmin(&sc.ops, &mut differs);
+    let mut i = 0;
+    while i < ops.len() && ops.len() > 1 {
+        let mut c = ops.clone();
+        c.remove(i);
+        if differs(&c) {
+            ops = c;
+        } else {
+            i += 1;
+        }
+    }
+    let _ = std::fs::remove_file(&cand_file);
+    if let Some(e) = err {
+        return Err(e);
+    }
+    let mut s = sc.clone();
+    s.ops = ops;
+    let path = coord::verif_root().join("replays").join(format!("{}-{}-{}-xproc.json", p.id, seed, index));
+    coord::write_json(&path, &xproc_doc(p, seed, index, &variants_of(&s, same), &v.detail))?;
+    match xproc_compare(&path)? {
+        Some(v2) => Ok((indices.len() as u64, Some((index, path, v2.detail)))),
+        None => Err("cross-process disagreement did not reproduce from the minimised replay file; the difference between processes is itself unstable".into()),
+    }
+}
+
 /// Reduced determinism proof run before every check: the same runs executed in fresh processes
 /// with two different block partitions must give identical per-run event-log digests.
 pub fn determinism_precheck(p: &HistProp, seed: u64, tier: Tier, runs: u64) -> Result<u64, String> {
@@ -397,7 +630,7 @@ pub fn determinism_precheck(p: &HistProp, seed: u64, tier: Tier, runs: u64) -> R
         if let Some(d2) = b.digests.get(i) {
             if d != d2 {
                 return Err(format!(
-                    "{}: run {i} produced different event logs in two fresh processes ({d:016x} vs {d2:016x}): nondeterminism reached the simulation",
+                    "MISMATCH {i} {}: run {i} produced different event logs in two fresh processes ({d:016x} vs {d2:016x}): nondeterminism reached the simulation",
                     p.id
                 ));
             }
@@ -416,16 +649,37 @@ pub fn check(p: &HistProp, tier: Tier, extra: impl FnOnce(&mut Map<String, Value
         return 2;
     }
     let pre_runs = if tier == Tier::Quick { 200 } else { 2000 };
+    let mut xproc_violation: Option<(u64, PathBuf, String)> = None;
     let pre = match determinism_precheck(p, seed, tier, pre_runs) {
         Ok(n) => n,
         Err(e) => {
-            // a nondeterministic *library* is a C15-style defect, but without a stable replay it
-            // cannot be reported as a violation; say so and stop.
-            eprintln!("harness error: {e}");
-            return 2;
+            // Two fresh processes disagreed on the same simulated run. If the property speaks
+            // about processes (C15) and the disagreement is in what the caller observed, it is a
+            // violation with a two-process replay; otherwise the harness cannot be trusted.
+            let idx = e.strip_prefix("MISMATCH ").and_then(|r| r.split_whitespace().next()).and_then(|x| x.parse::<u64>().ok());
+            match (p.cross_process, idx) {
+                (true, Some(i)) => match cross_process_pass(p, seed, tier, 0, Some(i)) {
+                    Ok((_, Some(v))) => {
+                        xproc_violation = Some(v);
+                        0
+                    }
+                    Ok((_, None)) => {
+                        eprintln!("harness error: {e} (but the callers' observations agree: the harness's own event log is unstable)");
+                        return 2;
+                    }
+                    Err(e2) => {
+                        eprintln!("harness error: {e}; {e2}");
+                        return 2;
+                    }
+                },
+                _ => {
+                    eprintln!("harness error: {e}");
+                    return 2;
+                }
+            }
         }
     };
-    let runs = env_u64("VERIF_RUNS").unwrap_or(if tier == Tier::Quick { p.quick_runs } else { p.thorough_runs });
+    let runs = if xproc_violation.is_some() { 0 } else { env_u64("VERIF_RUNS").unwrap_or(if tier == Tier::Quick { p.quick_runs } else { p.thorough_runs }) };
     let plan = Plan { prop: p.id, tier: tier.name().into(), seed, runs, block: p.block, workers: coord::workers() };
     let red = match coord::run_plan(&plan) {
         Ok(r) => r,
@@ -467,6 +721,30 @@ pub fn check(p: &HistProp, tier: Tier, extra: impl FnOnce(&mut Map<String, Value
             }
         }
     }
+    // cross-process pass (properties that speak about processes)
+    let mut xproc_compared = 0;
+    if p.cross_process && exit == 0 {
+        if xproc_violation.is_none() {
+            let n = env_u64("VERIF_XPROC").unwrap_or(if tier == Tier::Quick { 400 } else { 20_000 });
+            match cross_process_pass(p, seed, tier, n, None) {
+                Ok((c, v)) => {
+                    xproc_compared = c;
+                    xproc_violation = v;
+                }
+                Err(e) => {
+                    eprintln!("harness error: {e}");
+                    return 2;
+                }
+            }
+        }
+        if let Some((index, path, detail)) = &xproc_violation {
+            violations = 1;
+            println!("violation class={XPROC_CLASS} run={index} detail: {detail}");
+            println!("VIOLATION property={} replay={}", p.id, path.display());
+            replay_path = Some(path.clone());
+            exit = 1;
+        }
+    }
     for (k, (_class, _key, what)) in coord::known_findings(p.id).iter().enumerate() {
         let n = red.counters.get(&format!("known_finding_{k}")).copied().unwrap_or(0);
         if n > 0 {
@@ -490,6 +768,10 @@ pub fn check(p: &HistProp, tier: Tier, extra: impl FnOnce(&mut Map<String, Value
     extra_map.insert("simulated_seconds".into(), json!(red.counters.get("simulated_seconds").copied().unwrap_or(0)));
     extra_map.insert("child_processes".into(), json!(red.blocks));
     extra_map.insert("determinism_precheck_runs_compared".into(), json!(pre));
+    if p.cross_process {
+        extra_map.insert("histories_compared_across_fresh_processes".into(), json!(xproc_compared));
+        extra_map.insert("fresh_processes_for_cross_process_pass".into(), json!(xproc_compared * 2));
+    }
     extra_map.insert(
         "real_vs_stub".into(),
         json!({
@@ -540,6 +822,28 @@ pub fn replay_file(p: &HistProp, path: &Path, expect: Option<&str>) -> i32 {
             return 2;
         }
     };
+    if doc["xproc"].as_bool() == Some(true) {
+        return match xproc_compare(path) {
+            Err(e) => {
+                eprintln!("harness error: {e}");
+                2
+            }
+            Ok(None) => {
+                if expect.is_none() {
+                    println!("replay {}: fresh processes agree, no violation", path.display());
+                }
+                0
+            }
+            Ok(Some(v)) => {
+                if let Some(class) = expect {
+                    return if v.class == class { 1 } else { 0 };
+                }
+                println!("replay {}: class={} {}", path.display(), v.class, v.detail);
+                println!("VIOLATION property={} replay={}", p.id, path.display());
+                1
+            }
+        };
+    }
     match replay_doc(p, &doc) {
         Err(e) => {
             eprintln!("harness error: {e}");
